@@ -21,6 +21,12 @@ Call paths
               cells that vanish at I = 0 absent or zero.  A route that does not exist is labelled (`lookup:absent`,
               `multi:absent`) and not judged; keys beyond 2..L are not judged.
   multi_jit   the same routes, compiled
+  selector    `inclination_funcs.get_inclination_func(l, flag)`, the package's selector (degree, obliquity on/off) -> table
+              function, with the flag given as each of True, numpy.True_, np.any(obliquity != 0.) (a numpy.bool_), 1,
+              False, numpy.False_, 0, positionally and by keyword; the returned function is evaluated at the generated
+              obliquities (dispatcher with scalars, un-jitted with the array) and must be F_lmp(I)^2 (truthy flag) or
+              F_lmp(0)^2 (falsy flag).  A non-bool flag type that the selector rejects with KeyError/TypeError is labelled
+              and not judged.
   (`.py_func` is taken as getattr(f, 'py_func', f): a plain function is used as it is)
   Quick tier: py, jit_scalar, multi_py, multi_jit for every l / L = 2..7; jit_array for l <= 4 (numba cold compile of
   the l = 7 array signature is 18 s); thorough tier: everything.
@@ -100,7 +106,7 @@ ASSUMPTIONS = ['oracle: Kaula 1966 eq. 3.62 with exact rational coefficients, mp
                'off-table values: TOL*scale against full(0) and exact F(0)^2; universal coefficients: exact rational -> double, 4 ulp',
                'a trigonometric polynomial of degree <= 14 is determined by 29 points; 65 fixed + generated are used per cell']
 
-PATHS_ALL = ['py', 'jit_scalar', 'jit_array', 'multi_py', 'multi_jit']
+PATHS_ALL = ['py', 'jit_scalar', 'jit_array', 'multi_py', 'multi_jit', 'selector']
 GRID = [math.pi * k / 64 for k in range(65)]
 
 warnings.filterwarnings('ignore', message='.*parallel=True.*')
@@ -145,6 +151,16 @@ def _lookup():
         return None
 
 
+SELECTOR_FLAGS = ['True', 'np.True_', 'np.any(obliquity!=0)', '1', 'False', 'np.False_', '0']
+
+
+def _selector_flags(angles):
+    """(name, flag value, expected truthiness): how callers hand the obliquity on/off switch to the selector."""
+    any_nonzero = np.any(np.asarray(angles, dtype=float) != 0.0)        # numpy.bool_, as a caller's `np.any(obliquity != 0.)`
+    return [('True', True, True), ('np.True_', np.True_, True), ('np.any(obliquity!=0)', any_nonzero, bool(any_nonzero)),
+            ('1', 1, True), ('False', False, False), ('np.False_', np.False_, False), ('0', 0, False)]
+
+
 def _allowed(tier, l, path):
     # only the compiled ARRAY signature of the big tables is expensive (l = 7: 18 s cold); the stacked helpers are called with
     # scalars, whose per-degree dispatchers the jit_scalar path compiles anyway (12 s for all six degrees, cold)
@@ -184,9 +200,9 @@ def _fill(d):
 
 def strategy(tier):
     if tier == 'quick':
-        paths = ['py'] * 5 + ['jit_scalar'] * 2 + ['jit_array', 'multi_py', 'multi_jit']
+        paths = ['py'] * 4 + ['jit_scalar'] * 2 + ['jit_array', 'multi_py', 'multi_jit', 'selector']
     else:
-        paths = ['py'] * 3 + ['jit_scalar'] * 2 + ['jit_array'] * 2 + ['multi_py', 'multi_jit']
+        paths = ['py'] * 3 + ['jit_scalar'] * 2 + ['jit_array'] * 2 + ['multi_py', 'multi_jit', 'selector']
 
     def fix(c):
         if not _allowed(tier, c['l'], c['path']):
@@ -211,7 +227,8 @@ def fixed_cases(tier):
 def required_labels(tier):
     return ['l:%d' % l for l in range(2, 8)] + ['path:' + p for p in PATHS_ALL] + \
            ['grid:l%d' % l for l in range(2, 8)] + ['multi:L%d' % l for l in range(2, 8)] + \
-           ['route:lookup', 'multi:off_called_with_nonzero_obliquity', 'obl:zero', 'obl:pi', 'obl:interior', 'obl:near_zero', 'obl:near_pi']
+           ['route:lookup', 'multi:off_called_with_nonzero_obliquity', 'obl:zero'] + \
+           ['selector:flag=%s' % f for f in SELECTOR_FLAGS] + ['selector:positional', 'selector:keyword', 'selector:array', 'selector:scalar', 'obl:pi', 'obl:interior', 'obl:near_zero', 'obl:near_pi']
 
 
 def extra_coverage(tier, merged):
@@ -358,6 +375,67 @@ def _check_coeffs(c, l):
                     % (l, m, name, tab[m], ref, float(ref), u))
 
 
+def _eval_selector(c, l, angles, arr, stack):
+    """`inclination_funcs.get_inclination_func(l, flag)` is the package's selector (degree, obliquity on/off) -> table
+    function.  For every way a caller hands it the switch (python bool, numpy.bool_ - e.g. np.any(obliquity != 0.) -, int;
+    positional and keyword) the returned function is evaluated at the generated obliquities (compiled with scalars, un-jitted
+    with the array) and must be Kaula's F_lmp(I)^2 for a truthy flag and the obliquity-0 table F_lmp(0)^2 for a falsy one -
+    the same oracles as every other route.  A flag type the selector REJECTS with KeyError/TypeError is labelled, not judged
+    (only python True/False are required to be accepted)."""
+    import inspect
+    try:
+        from TidalPy.tides.inclination_funcs import get_inclination_func
+    except (ImportError, AttributeError):
+        c.label('selector:absent')
+        return
+    try:
+        names = [p for p in inspect.signature(get_inclination_func).parameters][:2]
+    except (TypeError, ValueError):
+        names = []
+    n = len(angles)
+    on, _ = _tables()
+    with repo_call('calc_inclin_l%d(0.0)' % l):
+        zero = {k: float(v) for k, v in _as_plain(_cache_safe(on[l], 0.0)).items()}
+    verdicts = {}       # (id(function), expected truthiness) -> list of failures; identical selections are evaluated once
+    for fname, flag, truthy in _selector_flags(angles):
+        c.label('selector:flag=%s' % fname)
+        styles = [('positional', (l, flag), {})]
+        if len(names) == 2:
+            styles.append(('keyword', (), {names[0]: l, names[1]: flag}))
+        for style, a, kw in styles:
+            c.label('selector:' + style)
+            where = 'get_inclination_func(%s%s) [%s flag %s of type %s]' % (l, ', ...', style, fname, type(flag).__name__)
+            try:
+                with repo_call(where):
+                    fn = get_inclination_func(*a, **kw)
+            except Exception as ex:     # noqa
+                cause = getattr(ex, 'exc', ex)
+                if type(flag) is not bool and isinstance(cause, (KeyError, TypeError)):
+                    c.label('selector:rejects_flag_type:%s' % type(flag).__name__)
+                    continue
+                raise
+            key = (id(fn), truthy)
+            if key not in verdicts:
+                sub = Collector()
+                with repo_call(where + ' -> table(I)'):
+                    tab_s = stack([_as_plain(_cache_safe(fn, x)) for x in angles])
+                    tab_a = _as_plain(_py(fn)(arr))
+                for tab, how in ((tab_s, 'scalar'), (tab_a, 'array')):
+                    if truthy:
+                        _check_full(sub, l, tab, angles, (n,), where + '(%s obliquity)' % how)
+                    else:
+                        _check_off(sub, l, tab, zero, (n,), where + '(%s obliquity)' % how)
+                verdicts[key] = sub.fails
+            fails = verdicts[key]
+            for f_ in fails[:6]:
+                c.fails.append({'signature': dict(f_['signature'], route='selector'), 'detail': where + ': ' + f_['detail']})
+            if len(fails) > 3:
+                c.fail({'clause': 'selector', 'l': l, 'flag': fname, 'style': style, 'kind': 'wrong_table'},
+                       '%s returned a function that is not the %s table of degree %d (%d cells differ); first: %s'
+                       % (where, 'full F_lmp(I)^2' if truthy else 'obliquity-off F_lmp(0)^2', l, len(fails), fails[0]['detail'][:300]))
+    c.label('selector:scalar', 'selector:array')
+
+
 def evaluate(case):
     l = int(case['l'])
     path = case['path']
@@ -410,6 +488,8 @@ def evaluate(case):
                 off_a = _as_plain(g(arr))
             _check_full(c, l, full_a, angles, (n,), where + '.array')
             _check_off(c, l, off_a, zero, (n,), where + '.array')
+    elif path == 'selector':
+        _eval_selector(c, l, angles, arr, stack)
     else:
         # The stacked multi-degree helpers deliver the tables to the rest of the package (find_mode_manipulators,
         # quick_tides, the OOP tides classes) through the public `mode_calc_helper.inclination_functions_lookup[flag][L]`.
